@@ -22,6 +22,7 @@ import (
 	"os"
 	"path/filepath"
 	"sort"
+	"strconv"
 	"strings"
 	"testing"
 
@@ -161,8 +162,104 @@ func genC14Ignore(g vgU) c14Entry {
 	return c14Entry{Path: c14IgnorePath, Kind: "file", Text: kit.Text(text)}
 }
 
+// c14CopyDirs are destinations for copies of whole directories (vendored
+// copies: two directories with byte-identical content, i.e. the same tree
+// object, at different paths of one branch).
+var c14CopyDirs = []string{"third_party", "vendor/copy", "d/e/copy", "p3", "docs/sub/mirror", "a/b/c"}
+
+// c14CopyDir copies every entry below some existing directory to a new
+// directory of the same branch tree; nothing happens when the destination
+// collides with what is there.
+func c14CopyDir(g vgU, es []c14Entry) []c14Entry {
+	dirSet := map[string]bool{}
+	for _, e := range es {
+		for i := 0; i < len(e.Path); i++ {
+			if e.Path[i] == '/' {
+				dirSet[e.Path[:i]] = true
+			}
+		}
+	}
+	if len(dirSet) == 0 {
+		return es
+	}
+	src := vgPick(g, vgSortedKeys(dirSet), "copysrc")
+	dst := vgPick(g, c14CopyDirs, "copydst")
+	if dst == src || strings.HasPrefix(dst+"/", src+"/") || strings.HasPrefix(src+"/", dst+"/") {
+		return es
+	}
+	for _, e := range es {
+		if e.Path == dst || strings.HasPrefix(e.Path, dst+"/") || strings.HasPrefix(dst+"/", e.Path+"/") {
+			return es
+		}
+	}
+	out := append([]c14Entry{}, es...)
+	for _, e := range es {
+		if strings.HasPrefix(e.Path, src+"/") {
+			c := e
+			c.Path = dst + e.Path[len(src):]
+			if c.Path == c14IgnorePath {
+				continue
+			}
+			out = append(out, c)
+		}
+	}
+	return out
+}
+
+// genC14Bulk is the rare "bulk" shape: 9-11 blobs of about 2 MB each (text or
+// with a NUL, all below the default SizeMax) plus a few small files, so that
+// one cat-file run reads more than its 16 MiB content slab holds.
+func genC14Bulk(g vgU, forced bool) c14Case {
+	c := c14Case{LargeFiles: vgPick(g, [][]string{{"nomatch-zzz"}, {"*.big"}}, "largefiles")}
+	c.Repack = g.Bool(15, "repack")
+	var es []c14Entry
+	n := g.Int(9, 11, "nbulk")
+	if forced && n < 10 {
+		n = 10 // the forced case: all text and a blob after the slab rollover, so a damaged slab is visible
+	}
+	for i := 0; i < n; i++ {
+		e := c14Entry{Path: fmt.Sprintf("bulk/%c%02d.dat", 'a'+byte(g.N(3, "bulkdir")), i), Kind: "file"}
+		if g.Bool(70, "bulktext") || forced {
+			e.Text = kit.Text(fmt.Sprintf("bulk text blob %d\n", i))
+		} else {
+			e.Text = kit.Text(fmt.Sprintf("bulk binary blob %d\x00\n", i))
+		}
+		e.Pad = 1900000 + 1000*g.N(190, "bulksize") + i
+		es = append(es, e)
+	}
+	for _, p := range []string{"README.md", "a.txt", "bulk/m.txt", "bulk/zz.txt", "main.go", "zz/last.txt"} {
+		if g.Bool(60, "small") {
+			es = append(es, c14Entry{Path: p, Kind: "file", Text: kit.Text("small file " + p + "\n")})
+		}
+	}
+	c.Branches = []c14Branch{{Name: "main", Entries: es}}
+	if g.Bool(40, "second") {
+		// a second branch that shares most blobs
+		var es2 []c14Entry
+		for i, e := range es {
+			switch {
+			case i%4 == 1 && g.Bool(50, "drop2"):
+			case i%4 == 2:
+				e.Text = append(append(kit.Text{}, e.Text...), "dev\n"...)
+				es2 = append(es2, e)
+			default:
+				es2 = append(es2, e)
+			}
+		}
+		c.Branches = append(c.Branches, c14Branch{Name: "dev", Entries: es2})
+	}
+	return c
+}
+
 func genC14(rt *rapid.T) c14Case {
 	g := vgU{T: rt}
+	bulkPct := 3
+	if os.Getenv("VERIF_TIER") == "thorough" {
+		bulkPct = 6
+	}
+	if g.Bool(bulkPct, "bulk") {
+		return genC14Bulk(g, false)
+	}
 	c := c14Case{}
 	c.SizeMax = vgPick(g, []int{100, 64, 0, 256, 1000}, "sizemax")
 	if !g.Bool(12, "nolargefiles") {
@@ -191,6 +288,9 @@ func genC14(rt *rapid.T) c14Case {
 	if g.Bool(55, "ignore") {
 		base = append(base, genC14Ignore(g))
 	}
+	if g.Bool(35, "copydir") {
+		base = c14CopyDir(g, base)
+	}
 	names := []string{"main", "dev", "release"}
 	for b := 0; b < nb; b++ {
 		br := c14Branch{Name: names[b]}
@@ -198,7 +298,9 @@ func genC14(rt *rapid.T) c14Case {
 		if b > 0 {
 			nm := g.Int(0, 5, "nmut")
 			for i := 0; i < nm; i++ {
-				switch vgPick(g, []string{"change", "drop", "add", "rekind", "ignore", "dup"}, "mut") {
+				switch vgPick(g, []string{"change", "drop", "add", "rekind", "ignore", "dup", "copydir", "change"}, "mut") {
+				case "copydir":
+					br.Entries = c14CopyDir(g, br.Entries)
 				case "change":
 					if len(br.Entries) > 0 {
 						j := g.Int(0, len(br.Entries)-1, "j")
@@ -376,6 +478,38 @@ func c14Model(c *c14Case, indexed []string, trees [][]c14Entry) ([]c14Doc, c14Fe
 			}
 			d.Branches = append(d.Branches, name)
 		}
+	}
+	// two directories of one branch tree with identical content (same tree object)
+	for bi := range indexed {
+		sig := map[string]string{}
+		for i := range trees[bi] {
+			e := &trees[bi][i]
+			for j := 0; j < len(e.Path); j++ {
+				if e.Path[j] == '/' {
+					sig[e.Path[:j]] += e.Path[j:] + "\x00" + e.Kind + "\x00" + string(e.Text) + "\x00" + fmt.Sprint(e.Pad) + "\x01"
+				}
+			}
+		}
+		// entries are visited in one fixed order per directory only if sorted
+		bySig := map[string]int{}
+		for d := range sig {
+			var parts []string
+			parts = append(parts, strings.Split(sig[d], "\x01")...)
+			sort.Strings(parts)
+			bySig[strings.Join(parts, "\x01")]++
+		}
+		for _, n := range bySig {
+			if n > 1 {
+				lab["identical-directories-in-one-branch"] = true
+			}
+		}
+	}
+	total := 0
+	for _, k := range order {
+		total += len(k.blob)
+	}
+	if total > 16<<20 {
+		lab["bulk:blobs-over-16MiB"] = true
 	}
 	var out []c14Doc
 	shared, partial := false, false
@@ -655,13 +789,21 @@ func runC14(rec *kit.Recorder, c c14Case) error {
 
 func TestVerif_C14(t *testing.T) {
 	rec := kit.Open(t, "C14",
-		"rapid-generated repositories (go-git plumbing objects, optionally repacked with the git binary) with 1-3 branches derived from a common base tree by entry changes/drops/additions/kind changes/duplicated blobs; entries are regular, executable, symlink or gitlink, nested up to 3 levels; blobs empty, < 3 bytes, with NUL, non-UTF-8, around SizeMax (-1, =, +1, 3x) and > 512 KiB; optional .sourcegraph/ignore per branch; options SizeMax, LargeFiles (incl. negations), ShardMax, BranchPrefix, legacy repository opening, HEAD indexed; each repository indexed through the go-git blob path and the git cat-file path and both read back shard by shard; a case = one repository + options; non-trivial = >= 2 indexed branches with a document on >= 2 branches, a document not on all branches and at least one special entry/blob kind; distinct by hash of the case",
+		"rapid-generated repositories (go-git plumbing objects, optionally repacked with the git binary) with 1-3 branches derived from a common base tree by entry changes/drops/additions/kind changes/duplicated blobs; entries are regular, executable, symlink or gitlink, nested up to 3 levels; blobs empty, < 3 bytes, with NUL, non-UTF-8, around SizeMax (-1, =, +1, 3x) and > 512 KiB; optional .sourcegraph/ignore per branch; whole directories copied to a second path of the same branch (identical tree objects), possibly diverging on another branch; a rare bulk shape (3 % quick / 6 % thorough, plus one forced case per run) with 9-11 blobs of ~2 MB so that one run reads > 16 MiB of blobs; options SizeMax, LargeFiles (incl. negations), ShardMax, BranchPrefix, legacy repository opening, HEAD indexed; each repository indexed through the go-git blob path and the git cat-file path and both read back shard by shard; a case = one repository + options; non-trivial = >= 2 indexed branches with a document on >= 2 branches, a document not on all branches and at least one special entry/blob kind; distinct by hash of the case",
 		"ignore patterns are drawn from a subset with unambiguous documented meaning: patterns without any of .][*? are path prefixes (implicit trailing **), otherwise * and ? match inside one path segment and the whole path must match; comments, blank lines, surrounding blanks, a leading / and CRLF line ends are covered; ** inside explicit patterns, character classes and braces are not generated",
 		"LargeFiles patterns are literal paths, single-segment * globs and a leading **/ (doublestar: zero or more directories), judged by the harness' own matcher",
-		"blobs not exempted by LargeFiles stay below the trigram limit, so the only skip reasons are too large / too small / binary",
+		"blobs not exempted by LargeFiles stay below the trigram limit (short ones by size, the 2 MB bulk text blobs by repeating a 17-byte filler), so the only skip reasons are too large / too small / binary",
 		"gitlinks point at commits that are not available and Options.Submodules is off: no documents are expected for them",
 		"this git (2.39) has no cat-file --filter: the cat-file path is reached with a non-empty LargeFiles list, and with an empty list the documented fallback to go-git is what is exercised; which path ran is read from the indexer's log",
 		"objects missing from the repository (where the two reading paths are documented to differ) are not generated",
 	)
+	// one bulk repository in every run (the shape is rare in the random stream)
+	if os.Getenv("VERIF_REPLAY") == "" && (os.Getenv("VERIF_PROC") == "" || os.Getenv("VERIF_PROC") == "0") {
+		seed, _ := strconv.Atoi(os.Getenv("VERIF_SEED_EFFECTIVE"))
+		c := rapid.Custom(func(rt *rapid.T) c14Case { return genC14Bulk(vgU{T: rt}, true) }).Example(seed + 1)
+		if err := rec.Judge(c, kit.Guard(func() error { return runC14(rec, c) })); err != nil {
+			t.Fatalf("forced bulk case: %v", err)
+		}
+	}
 	kit.Property(t, rec, genC14, func(c c14Case) error { return runC14(rec, c) })
 }
